@@ -13,6 +13,7 @@ import (
 	"sort"
 	"strings"
 	"sync"
+	"sync/atomic"
 	"time"
 
 	"perun.network/go-perun/channel"
@@ -112,6 +113,12 @@ func runPrograms(s sink.Sink, cfg props.Cfg, n int, stream string, workers int) 
 func genProgram(rng *rand.Rand) program {
 	p := program{Channels: 1 + rng.Intn(3), Assets: 1 + rng.Intn(2), Noise: rng.Intn(6)}
 	p.Mode = []string{"sequential", "same-side", "cross-channel", "both-sides"}[rng.Intn(4)]
+	if rng.Intn(6) == 0 {
+		// the channels are opened at the same time, the responder's funding calls return late,
+		// and the proposer starts updating each channel as soon as its own opening call returned
+		p.Mode = "overlapping-openings"
+		p.Channels = 2 + rng.Intn(2)
+	}
 	n := 2 + rng.Intn(12)
 	for i := 0; i < n; i++ {
 		pr := proposal{Who: rng.Intn(2), Ch: rng.Intn(p.Channels), Asset: rng.Intn(p.Assets), Amount: int64(rng.Intn(12)), Accept: rng.Intn(4) != 0, Delay: rng.Intn(4)}
@@ -125,9 +132,18 @@ func genProgram(rng *rand.Rand) program {
 			pr.Who = 0
 		case "both-sides":
 			pr.Ch = 0
+		case "overlapping-openings":
+			pr.Who = 0
+			if i < p.Channels {
+				pr.Ch = i // every channel gets an early first proposal, often a rejected one
+				pr.Accept = rng.Intn(2) == 0
+			}
 		}
 		pr.N = i + 1
 		pr.GivenUp, pr.GivenUpInHandler = rng.Intn(10) == 0, rng.Intn(10) == 0
+		if p.Mode == "overlapping-openings" {
+			pr.GivenUp, pr.GivenUpInHandler = false, false
+		}
 		if p.Mode == "sequential" && rng.Intn(7) == 0 {
 			pr.Final = true
 			if rng.Intn(2) == 0 {
@@ -236,6 +252,7 @@ func one(s sink.Sink, rng *rand.Rand, sample bool) {
 		givenUp bool
 	}
 	var chans [][2]*client.Channel
+	var execHook func(pr proposal)
 	// givenUp: Update with a cancelled context; it cannot get the machine mutex and must not
 	// touch the channel
 	givenUp := func(ch *client.Channel) {
@@ -280,7 +297,66 @@ func one(s sink.Sink, rng *rand.Rand, sample bool) {
 
 	// open the channels
 	chans = make([][2]*client.Channel, prog.Channels)
-	for c := 0; c < prog.Channels; c++ {
+	var lanesDone func() bool
+	if prog.Mode == "overlapping-openings" {
+		lags := make([]time.Duration, 16)
+		for i := range lags {
+			lags[i] = time.Duration(rng.Intn(6000)) * time.Microsecond
+		}
+		var lagN int64
+		B.SetFundLag(func() { time.Sleep(lags[int(atomic.AddInt64(&lagN, 1))%len(lags)]) })
+		allBals := make([][][]int64, prog.Channels)
+		for c := range allBals {
+			allBals[c] = make([][]int64, prog.Assets)
+			for a := range allBals[c] {
+				allBals[c][a] = []int64{int64(20 + rng.Intn(80)), int64(20 + rng.Intn(80))}
+			}
+		}
+		var owg sync.WaitGroup
+		var openErr atomic.Value
+		var run1 func(pr proposal)
+		started := make(chan struct{})
+		for c := 0; c < prog.Channels; c++ {
+			c := c
+			owg.Add(1)
+			go func() {
+				defer owg.Done()
+				ch, err := A.OpenLedgerChannel(B, allBals[c], 10, client.WithApp(gen.DApp, &gen.BytesData{B: []byte{0}}))
+				if err != nil {
+					openErr.Store(err.Error())
+					return
+				}
+				chans[c][0] = ch
+				<-started
+				for _, pr := range prog.Proposals {
+					if pr.Ch == c {
+						run1(pr)
+					}
+				}
+			}()
+		}
+		lanesDone = func() bool {
+			run1 = execHook
+			close(started)
+			owg.Wait()
+			if e := openErr.Load(); e != nil {
+				s.Inconclusive("channel opening failed: " + e.(string))
+				return false
+			}
+			for c := range chans {
+				if chans[c][0] == nil {
+					return false
+				}
+				chans[c][1] = B.AwaitChannel(chans[c][0].ID())
+				if chans[c][1] == nil {
+					s.Inconclusive("peer never registered the channel")
+					return false
+				}
+			}
+			return true
+		}
+	}
+	for c := 0; c < prog.Channels && lanesDone == nil; c++ {
 		bals := make([][]int64, prog.Assets)
 		for a := range bals {
 			bals[a] = []int64{int64(20 + rng.Intn(80)), int64(20 + rng.Intn(80))}
@@ -364,7 +440,12 @@ func one(s sink.Sink, rng *rand.Rand, sample bool) {
 		results = append(results, result{pr, err, before, enc, local})
 		rmu.Unlock()
 	}
+	execHook = exec
 	switch prog.Mode {
+	case "overlapping-openings":
+		if !lanesDone() {
+			return
+		}
 	case "sequential":
 		for _, pr := range prog.Proposals {
 			exec(pr)
